@@ -1,4 +1,6 @@
 //! Shared harness environment: the standard stub set, an oracle scheduler, execution-state set-up.
+#[cfg(not(kani))]
+use crate::shim as kani;
 use shuttle_engine::runtime::execution::ExecutionState;
 use shuttle_engine::scheduler::{Schedule, Scheduler, Task, TaskId};
 use shuttle_engine::Config;
@@ -7,6 +9,7 @@ use std::rc::Rc;
 
 /// Wraps a function into a Kani proof harness carrying the standard environment stubs
 /// (DESIGN.md 2.3). Extra attributes (`#[kani::unwind(n)]`, more stubs) are passed through.
+#[cfg(kani)]
 #[macro_export]
 macro_rules! harness {
     ($(#[$m:meta])* fn $name:ident() $body:block) => {
@@ -27,6 +30,39 @@ macro_rules! harness {
         $(#[$m])*
         pub fn $name() $body
     };
+}
+
+
+/// Native build: the harness is an ordinary function (attributes are dropped).
+#[cfg(not(kani))]
+#[macro_export]
+macro_rules! harness {
+    ($(#[$m:meta])* fn $name:ident() $body:block) => {
+        pub fn $name() $body
+    };
+}
+
+/// Repeat a block a literal number of times (straight-line code). Harness-side loops are written with
+/// this so that `#[kani::unwind(n)]` can be sized for the loops of the code under verification only.
+#[macro_export]
+macro_rules! unroll {
+    (1, $b:block) => { $b };
+    (2, $b:block) => { $b $b };
+    (3, $b:block) => { $b $b $b };
+    (4, $b:block) => { $b $b $b $b };
+    (5, $b:block) => { $b $b $b $b $b };
+    (6, $b:block) => { $b $b $b $b $b $b };
+    (7, $b:block) => { $b $b $b $b $b $b $b };
+    (8, $b:block) => { $b $b $b $b $b $b $b $b };
+    (9, $b:block) => { $b $b $b $b $b $b $b $b $b };
+    (10, $b:block) => { $b $b $b $b $b $b $b $b $b $b };
+    (11, $b:block) => { $b $b $b $b $b $b $b $b $b $b $b };
+    (12, $b:block) => { $b $b $b $b $b $b $b $b $b $b $b $b };
+    (13, $b:block) => { $b $b $b $b $b $b $b $b $b $b $b $b $b };
+    (14, $b:block) => { $b $b $b $b $b $b $b $b $b $b $b $b $b $b };
+    (15, $b:block) => { $b $b $b $b $b $b $b $b $b $b $b $b $b $b $b };
+    (16, $b:block) => { $b $b $b $b $b $b $b $b $b $b $b $b $b $b $b $b };
+    (17, $b:block) => { $b $b $b $b $b $b $b $b $b $b $b $b $b $b $b $b $b };
 }
 
 /// A scheduler that is never consulted (harnesses that pick the acting task themselves).
